@@ -736,11 +736,14 @@ func (g *cgen) regex() string {
 	case 0:
 		return "^" + regexp.QuoteMeta(v)
 	case 1:
-		return regexp.QuoteMeta(v) + "$"
+		if g.defects {
+			return regexp.QuoteMeta(v) + "$" // unanchored with a literal prefix
+		}
+		return "^.*" + regexp.QuoteMeta(v) + "$"
 	case 2:
 		return "^.*" + regexp.QuoteMeta(string([]rune(v)[:1])) + ".*$"
 	case 3:
-		return g.pick([]string{"(?i)^ab", "[0-9]+", ".*", "^(a|b)c?$", "^host-[0-9]$", "^[^a]", `^\d+\.\d+\.1\.`, "^日", "é$"})
+		return g.pick([]string{"(?i)^ab", "[0-9]+", ".*", "^(a|b)c?$", "^host-[0-9]$", "^[^a]", `^\d+\.\d+\.1\.`, "^日", ".é$"})
 	case 4:
 		return g.pick([]string{"(", "a{2,1}", "[z-a]", "*a"})
 	case 5:
